@@ -46,7 +46,7 @@ theorem multiTaperPsdList_eq (tw : ℕ → K) (Fs : R) (n N : ℕ) (os : Bool) (
       = (List.range (mt_psd_last_freq N os)).map (multiTaperPsdAt tw Fs n N os T h w x) := by
   simp only [multiTaperPsdList, memoGet2_fun]; rfl
 
-theorem multiTaperCsdList_eq (tw : ℕ → K) (Fs : R) (n N M : ℕ) (os : Bool) (T : ℕ)
+theorem multiTaperCsdList_eq [RSqrt R] (tw : ℕ → K) (Fs : R) (n N M : ℕ) (os : Bool) (T : ℕ)
     (h : ℕ → ℕ → R) (w : ℕ → ℕ → ℕ → R) (x : ℕ → ℕ → K) :
     multiTaperCsdList tw Fs n N M os T h w x
       = matList M (mt_csd_last_freq N os) (multiTaperCsdAt tw Fs n N os T h w x) := by
@@ -483,6 +483,52 @@ theorem welch_parseval_onesided (hN : 0 < N) (hζ : IsPrimitiveRoot ζ N)
       simp only [if_neg h0, if_pos h1, if_pos this]
     · have : ¬ (1 ≤ m ∧ m < (N + 1) / 2) := fun hh => h1 hh.2
       simp only [if_neg h0, if_neg h1, if_neg this]
+
+/-! ### linearity of the tapered / segment spectra, Welch `scale_sq` -/
+
+theorem demean_smul (n : ℕ) (a : ℂ) (x : ℕ → ℂ) (j : ℕ) :
+    demean n (fun j => a * x j) j = a * demean n x j := by
+  simp only [demean_eq, kmean_eq, ← Finset.mul_sum]; ring
+
+theorem taperedSpec_smul (tw : ℕ → ℂ) (n : ℕ) (h : ℕ → ℝ) (a : ℂ) (x : ℕ → ℂ) (k : ℕ) :
+    taperedSpec tw N n h (fun j => a * x j) k = a * taperedSpec tw N n h x k := by
+  have e : (fun j => kscale (h j) (demean n (fun j => a * x j) j))
+      = fun j => a * kscale (h j) (demean n x j) := by
+    funext j; rw [demean_smul, kscale_eq, kscale_eq]; ring
+  unfold taperedSpec
+  rw [e]
+  exact spec_smul tw n a _ k
+
+theorem segSpec_smul (tw : ℕ → ℂ) (n nov : ℕ) (win : ℕ → ℝ) (a : ℂ) (x : ℕ → ℂ) (s k : ℕ) :
+    segSpec tw N n nov win (fun j => a * x j) s k = a * segSpec tw N n nov win x s k := by
+  simp only [segSpec, dftAt, ksum_eq, mul_sum, kscale_eq, padded_eq]
+  refine sum_congr rfl fun j _ => ?_
+  split_ifs <;> ring
+
+/-- `scale_sq` for Welch cross- and auto-spectra (`mlab.csd`): scaling both signals by `a` multiplies
+the density by `|a|²` -/
+theorem welch_scale_sq (tw : ℕ → ℂ) (Fs : ℝ) (n nov : ℕ) (os : Bool) (win : ℕ → ℝ) (a : ℂ)
+    (x y : ℕ → ℂ) (m : ℕ) :
+    welchCsdAt tw Fs n N nov os win (fun j => a * x j) (fun j => a * y j) m
+      = (Complex.normSq a : ℂ) * welchCsdAt tw Fs n N nov os win x y m := by
+  have hx : segSpec tw N n nov win (fun j => a * x j) = fun s k => a * segSpec tw N n nov win x s k := by
+    funext s k; exact segSpec_smul tw n nov win a x s k
+  have hy : segSpec tw N n nov win (fun j => a * y j) = fun s k => a * segSpec tw N n nov win y s k := by
+    funext s k; exact segSpec_smul tw n nov win a y s k
+  unfold welchCsdAt welchCsdOf dblIf
+  rw [hx, hy]
+  simp only [rsum_eq, ksum_eq, kscale_eq, conj_complex, ofNat_real, map_mul]
+  have hs : ∑ s ∈ range (welchSegs n N nov),
+        (starRingEnd ℂ) a * (starRingEnd ℂ) (segSpec tw N n nov win x s (welchBin N os m))
+          * (a * segSpec tw N n nov win y s (welchBin N os m))
+      = (Complex.normSq a : ℂ) * ∑ s ∈ range (welchSegs n N nov),
+          (starRingEnd ℂ) (segSpec tw N n nov win x s (welchBin N os m))
+            * segSpec tw N n nov win y s (welchBin N os m) := by
+    rw [Finset.mul_sum]
+    refine sum_congr rfl fun s _ => ?_
+    rw [Complex.normSq_eq_conj_mul_self]; ring
+  rw [hs]
+  split_ifs <;> ring
 
 /-! ### non-vacuity: admissible twiddles exist for every `N`, and the statements have content -/
 
